@@ -115,7 +115,7 @@ def make_action_labels(rng, m):
 
 def random_spec(rng, family="any", n_max=8, a_max=4, label_kind=None, uniform_actions=False,
                 allow_zero_entries=True, allow_live_absorbing=True, gamma=None,
-                reward_sign=None, min_states=1, allow_dup_actions=True):
+                reward_sign=None, min_states=1, allow_dup_actions=True, allow_implicit=True):
     """families:
        any        gamma<1, arbitrary structure, rewards of either sign
        proper     every policy reaches an absorbing state w.p.1 (hidden rank order), any gamma
@@ -161,7 +161,7 @@ def random_spec(rng, family="any", n_max=8, a_max=4, label_kind=None, uniform_ac
         if family == "avg":
             abs_kind[i] = "implicit"
         else:
-            kinds = ["zero", "zero", "implicit"]
+            kinds = ["zero", "zero", "implicit"] if allow_implicit else ["zero", "zero"]
             if allow_live_absorbing:
                 kinds += ["live", "live"]
             abs_kind[i] = rng.choice(kinds)
